@@ -310,43 +310,42 @@ const (
 	VerifRedisEmpty   = 4 // a multibulk count <= 0: silently ignored by Redis (no reply)
 )
 
-// verifString2ll mirrors util.c string2ll on b (may contain symbolic bytes; branches on them).
+// verifString2ll mirrors util.c string2ll on b (which may contain symbolic bytes). It is written
+// without data-dependent branches: the verdict is one boolean term and the value one integer term,
+// so a long field costs one decision, not one per digit.
 func verifString2ll(b []byte) (v int, ok bool) {
-	if len(b) == 0 {
+	n := len(b)
+	if n == 0 {
 		return 0, false
 	}
-	if len(b) == 1 && b[0] == '0' {
+	single0 := n == 1 && b[0] == '0'
+	neg := b[0] == '-'
+	// digits start at index 1 when negative, else 0; the first digit must be 1..9
+	good := true
+	val := 0
+	over := false
+	for i := 0; i < n; i++ {
+		c := b[i]
+		isDigit := verifrt.And(c >= '0', c <= '9')
+		isFirst := verifrt.Or(verifrt.And(i == 0, verifrt.Not(neg)), verifrt.And(i == 1, neg))
+		signPos := verifrt.And(i == 0, neg)
+		okHere := verifrt.Or(signPos, verifrt.And(isDigit, verifrt.Implies(isFirst, c != '0')))
+		good = verifrt.And(good, okHere)
+		d := verifrt.Ite(isDigit, int(c-'0'), 0)
+		val = verifrt.Ite(signPos, val, val*10+d)
+		over = verifrt.Or(over, val > 1<<31)
+		val = verifrt.Ite(over, 1<<32, val) // saturate: the exact value no longer matters
+	}
+	good = verifrt.And(good, verifrt.Not(verifrt.And(neg, n == 1)))
+	good = verifrt.And(good, verifrt.Not(over))
+	val = verifrt.Ite(neg, -val, val)
+	if single0 {
 		return 0, true
 	}
-	p := 0
-	neg := false
-	if b[0] == '-' {
-		neg = true
-		p = 1
-		if len(b) == 1 {
-			return 0, false
-		}
+	if good {
+		return val, true
 	}
-	if b[p] >= '1' && b[p] <= '9' {
-		v = int(b[p] - '0')
-		p++
-	} else {
-		return 0, false
-	}
-	for p < len(b) {
-		if b[p] < '0' || b[p] > '9' {
-			return 0, false
-		}
-		v = v*10 + int(b[p]-'0')
-		if v > 1<<31 {
-			return 0, false
-		}
-		p++
-	}
-	if neg {
-		v = -v
-	}
-	return v, true
+	return 0, false
 }
 
 // VerifRedisParse consumes b as Redis would. It returns the status after the last byte, the number
